@@ -10,7 +10,7 @@ func init() {
 	register(&propDef{
 		id: "C24", title: "Connection compression is transparent",
 		technique: "wiring rules over the syntax tree and CFG: flush-before-acknowledge on the write path, codec pairing of reader and writer per ConnWrapper implementation, delegation shape of the flush adapters",
-		explanation: "Decides the wiring the transparency of a compressed connection rests on, for every ConnWrapper implementation (gzip, zstd, brotli): (1) compressedConn.Write reports success only after the codec writer's Flush returned nil on the same path (the bytes of every successful Write are on the wire, which the request/response framing relies on), passes the caller's buffer unchanged and returns the count of the underlying Write; Read delegates to the codec reader with the caller's buffer; (2) every Wrap builds its connection from a reader and a writer of the SAME codec package, both attached to the connection it was given (writer Reset/constructed over conn, reader reading from conn), and passes that same connection as the raw one; (3) every first-party flushWriter adapter's Write and Flush delegate to the wrapped codec writer's Write and Flush (no no-op flush); (4) Close ends the codec stream (closer) before closing the raw connection. That a codec's decoder inverts its encoder for all inputs and segmentations is the codec library's contract and is NOT decided.",
+		explanation: "Decides the wiring the transparency of a compressed connection rests on, for every ConnWrapper implementation (gzip, zstd, brotli): (1) compressedConn.Write reports success only after the codec writer's Flush returned nil on the same path (the bytes of every successful Write are on the wire, which the request/response framing relies on), passes the caller's buffer unchanged and returns the count of the underlying Write; Read delegates to the codec reader with the caller's buffer; (2) every Wrap builds its connection from a reader and a writer of the SAME codec package, both attached to the connection it was given (writer Reset/constructed over conn, reader reading from conn), and passes that same connection as the raw one; (3) every first-party flushWriter adapter's Write and Flush delegate to the wrapped codec writer's Write and Flush (no no-op flush); (4) Close ends the codec stream (closer) before closing the raw connection. That a codec's decoder inverts its encoder for all inputs and segmentations is the codec library's contract and is NOT decided. Added after seed C24a: Write never reassigns or re-slices the caller's buffer.",
 		assumptions: []string{"compress/gzip, klauspost/zstd and andybalholm/brotli decoders invert their encoders across arbitrary flush points"},
 		minObl:     20,
 		run:        runC24,
